@@ -25,4 +25,5 @@ PROPERTY MoveIsCopyStoreExpunge
 PROPERTY ExpungeExact
 PROPERTY FetchSeenExact
 PROPERTY StoreExact
+PROPERTY OtherLeavesSession
 CHECK_DEADLOCK FALSE
